@@ -263,6 +263,8 @@ def c06(tier, seed):
     c.conform(binary, random_iter_scripts(rng, 12 if tier == "quick" else 120, lens, 40 if tier == "quick" else 200), "random")
     # the repository's own iterator tests (tests/iter.rs), replayed as scripts so that every step is validated
     c.conform(binary, repo_iter_test_scripts(), "repo-test-replicas")
+    # arrays of zero-sized elements longer than 32 bits / than isize::MAX: the O(1) steps, lengths as deficits from N
+    c.conform(binary, [{"case": "big", "prop": "C06", "d": {"op": "zstiter", "shape": s}} for s in ("2^32", "2^32+5", "2^63", "2^64-1")], "huge-zst-iterators", sub="big")
     c.assumptions += ["iterator state is fully observable through as_slice/len, so covering every transition from every reachable (front, back) covers all histories up to the bound",
                       "harness elements (Tk) report clones and destructor runs faithfully"]
     return c.finish()
